@@ -3,10 +3,10 @@
 package main
 
 import (
-	"encoding/base64"
-	"math/rand"
 	"crypto/hmac"
 	"crypto/sha256"
+	"encoding/base64"
+	"math/rand"
 	"net/http"
 	"net/http/httptest"
 	"net/url"
@@ -137,7 +137,9 @@ func driveC09Stores(t *testing.T, out *vEmitter) {
 				for _, age := range ages {
 					b := e.newBrowser("https://app.example.com")
 					// the identity provider refuses refreshes in this sweep: a due refresh keeps the old session (validation passes)
-					e.idp.onToken = func(url.Values) (int, string, string, error) { return 400, "application/json", `{"error":"invalid_grant"}`, nil }
+					e.idp.onToken = func(url.Values) (int, string, string, error) {
+						return 400, "application/json", `{"error":"invalid_grant"}`, nil
+					}
 					created := time.Now().Add(-time.Duration(age) * time.Second)
 					expires := time.Now().Add(time.Hour)
 					at := "at"
@@ -270,7 +272,6 @@ func driveC09Stores(t *testing.T, out *vEmitter) {
 		}
 	}
 }
-
 
 // vC09NonRefreshing: a provider that cannot refresh sessions and tells no token lifetime (the non-OIDC family; token
 // response in JSON or form encoding).  The proxy re-stamps the credential every cookie-refresh, so what ends the
@@ -464,37 +465,37 @@ func vC09NoRefreshToken(t *testing.T, out *vEmitter) {
 			// ... and the same with a refresh token whose access token is still good for hours: the age may be reset, but only
 			// by a refresh the identity provider was asked for
 			for _, withRT := range []bool{false, true} {
-			issued := time.Now().Add(-25 * time.Minute).Truncate(time.Second)
-			tokenExp := time.Now().Add(6 * time.Hour)
-			claims := vClaims("user@example.com", map[string]interface{}{"exp": tokenExp.Unix()})
-			raw := vJWT(vKeyRSA, "RS256", claims)
-			s := &sessionsapi.SessionState{CreatedAt: &issued, ExpiresOn: &tokenExp, Email: "user@example.com", User: "sub-user@example.com",
-				AccessToken: raw, IDToken: raw}
-			if withRT {
-				s.RefreshToken = "rt0"
-				e.idp.refreshTo("user@example.com", 20)
-			}
-			b := e.newBrowser("https://app.example.com")
-			vReseed(b, s)
-			e.idp.Reset()
-			for i := 0; i < 3; i++ {
-				r := b.get("/oauth2/auth")
-				rq := httptest.NewRequest("GET", "https://app.example.com/", nil)
-				rq.Header.Set("Cookie", b.cookieHeader("/"))
-				got, err := e.p.sessionStore.Load(rq)
-				tokenCalls := len(e.idp.Calls("/token"))
-				out.Obs("no-refresh-token", true, vL(vS(k), vBool(redis), vI(int64(r.Status)), vI(int64(tokenCalls))))
-				out.Stat("no_refresh_token_requests", 1)
-				if r.Status != 202 || err != nil || got == nil || got.CreatedAt == nil {
-					// refusing the session is fail-closed; nothing to compare
-					break
+				issued := time.Now().Add(-25 * time.Minute).Truncate(time.Second)
+				tokenExp := time.Now().Add(6 * time.Hour)
+				claims := vClaims("user@example.com", map[string]interface{}{"exp": tokenExp.Unix()})
+				raw := vJWT(vKeyRSA, "RS256", claims)
+				s := &sessionsapi.SessionState{CreatedAt: &issued, ExpiresOn: &tokenExp, Email: "user@example.com", User: "sub-user@example.com",
+					AccessToken: raw, IDToken: raw}
+				if withRT {
+					s.RefreshToken = "rt0"
+					e.idp.refreshTo("user@example.com", 20)
 				}
-				if tokenCalls == 0 && !got.CreatedAt.Equal(issued) {
-					out.Violation("lifetime/age-reset-without-refresh", "a session's age was reset although the identity provider was not asked to refresh it",
-						map[string]interface{}{"provider": k, "redis": redis, "issued": issued.Unix(), "created_at_now": got.CreatedAt.Unix(), "request": i, "has_refresh_token": withRT})
-					break
+				b := e.newBrowser("https://app.example.com")
+				vReseed(b, s)
+				e.idp.Reset()
+				for i := 0; i < 3; i++ {
+					r := b.get("/oauth2/auth")
+					rq := httptest.NewRequest("GET", "https://app.example.com/", nil)
+					rq.Header.Set("Cookie", b.cookieHeader("/"))
+					got, err := e.p.sessionStore.Load(rq)
+					tokenCalls := len(e.idp.Calls("/token"))
+					out.Obs("no-refresh-token", true, vL(vS(k), vBool(redis), vI(int64(r.Status)), vI(int64(tokenCalls))))
+					out.Stat("no_refresh_token_requests", 1)
+					if r.Status != 202 || err != nil || got == nil || got.CreatedAt == nil {
+						// refusing the session is fail-closed; nothing to compare
+						break
+					}
+					if tokenCalls == 0 && !got.CreatedAt.Equal(issued) {
+						out.Violation("lifetime/age-reset-without-refresh", "a session's age was reset although the identity provider was not asked to refresh it",
+							map[string]interface{}{"provider": k, "redis": redis, "issued": issued.Unix(), "created_at_now": got.CreatedAt.Unix(), "request": i, "has_refresh_token": withRT})
+						break
+					}
 				}
-			}
 			}
 		}
 	}
